@@ -34,8 +34,10 @@ BadCount == {HeadersF(2, 1, 0), HeadersF(1, 2, 0), HeadersF(0, 1, 0), HeadersF(1
              Raw(9, TRUE, 1, 1, 0, 0), Raw(9, TRUE, 0, 0, 0, 0),
              PeerAddrsF(5, 2), PeerAddrsF(257, 257), LocatorF(3, 1), LocatorF(21, 21),
              Raw(3, TRUE, 15, 15, 16, 0), Raw(10, TRUE, 0, 0, 32, 0)}
-\* decodable body followed by bytes the count does not account for (left open, see Codec.tla)
-Trailing == {PeerAddrsF(1, 3), LocatorF(0, 2), Raw(3, TRUE, 20, 20, 16, 0)}
+\* decodable body followed by bytes the count does not account for: refused by the statement
+\* (AtLimit frames of the decodable types are of this kind too)
+Trailing == {PeerAddrsF(1, 3), LocatorF(0, 2), Raw(3, TRUE, 20, 20, 16, 0), Raw(17, TRUE, 60, 60, 48, 0)}
+               \cup {Raw(t, TRUE, NeedOf(t) + 1, NeedOf(t) + 1, NeedOf(t), CountOf(t)) : t \in {3, 4, 5, 6, 7, 8, 10, 12, 16, 18, 19, 20, 21, 23, 25, 27}}
 \* handshake messages are not accepted once the connection is up
 Unexpected == {Raw(1, TRUE, 60, 60, -1, 0), Raw(2, TRUE, 40, 40, -1, 0), Raw(0, TRUE, 0, 0, -1, 0)}
 Refused == OverLimit \cup Huge \cup BadMagic \cup BadCount \cup Unexpected
@@ -75,7 +77,7 @@ StreamsProbe == {<<Ping, Ping>>}
 RefusalKind(f) == LET c == FrameClass(f) IN
   IF ~f.magic THEN "bad_magic" ELSE IF f.len > Limit(f.t) THEN "over_limit"
   ELSE IF c = "badcount" THEN "bad_count" ELSE IF c = "baddecode" THEN "bad_body"
-  ELSE IF c = "unexpected" THEN "unexpected_type" ELSE ""
+  ELSE IF c = "unexpected" THEN "unexpected_type" ELSE IF c = "trailing" THEN "trailing_bytes" ELSE ""
 \* Case generator: one line per stream with what the property demands of it.
 RECURSIVE StartsOf(_, _)
 StartsOf(s, i) == IF i > Len(s) THEN <<>> ELSE <<StartOf(s, i)>> \o StartsOf(s, i + 1)
